@@ -44,6 +44,14 @@ def run_pool(ck, tasks, site):
         ck.finish()
 
 
+def vcf_children(K, P):
+    """sorted allele vectors of length P over K alleles in VCF genotype order"""
+    import itertools
+    gs = [list(g) for g in itertools.combinations_with_replacement(range(K), P)]
+    gs.sort(key=lambda g: sum(math.comb(a + i, i + 1) for i, a in enumerate(g)))
+    return gs
+
+
 def main():
     ck = Check("C17")
     tier = ck.tier
@@ -134,6 +142,34 @@ def main():
                         ck.violation("pederr", {"parents_known": {"valid": "both", "duop": "p only", "duoq": "q only"}[name], "Gp": s["Gp"], "Gq": s["Gq"],
                                                 "tp": s["tp"], "tq": s["tq"], "lp": s["lp"], "lq": s["lq"], "impl": got, "model": want},
                                      key=dict(feature(s), site="PedigreeAllelesMultiTrace.incongruence", known=name))
+    # PEDERR while the parents move: instances that share everything but the parental genotypes form a trace in which
+    # consecutive steps mostly differ in the last alleles of one parent; the progeny is held at one genotype
+    groups = {}
+    for s in trios:
+        if s["Gp"] and s["Gq"] and s["lp"][0] < s["lp"][1] and s["lq"][0] < s["lq"][1] and s.get("valid"):
+            groups.setdefault((s["K"], s["tp"], s["tq"], tuple(s["lp"]), tuple(s["lq"]), len(s["Gp"]), len(s["Gq"])), []).append(s)
+    walks, wants = [], []
+    for key, grp in sorted(groups.items()):
+        if len(grp) < 2:
+            continue
+        grp = sorted(grp, key=lambda s: (s["Gq"], s["Gp"]))
+        order = vcf_children(key[0], key[1] + key[2])
+        for ci in sorted({0, len(order) // 2, len(order) - 1, next((i for i, v in enumerate(grp[0]["valid"]) if v), 0)}):
+            walks.append({"K": key[0], "tp": key[1], "tq": key[2], "lp": list(key[3]), "lq": list(key[4]),
+                          "steps": [[s["Gp"], s["Gq"]] for s in grp], "child": order[ci]})
+            wants.append(sum(1 for s in grp if not s["valid"][ci]) / len(grp))
+    if walks:
+        rr = run_pool(ck, [{"op": "pederr_walks", "walks": walks}], "pederr_walks")[0]
+        if not rr["ok"]:
+            ck.violation("impl-error", {"error": rr["error"]}, key={"site": "PedigreeAllelesMultiTrace.incongruence", "kind": "exception"})
+        else:
+            for w, want, got in zip(walks, wants, rr["result"]):
+                ck.evaluations += 1
+                if abs(got - want) > 1e-12:
+                    ck.violation("pederr", {"parents_known": "both, parents change between steps", "walk": w, "impl": got, "model": want},
+                                 key={"site": "PedigreeAllelesMultiTrace.incongruence", "known": "moving-parents",
+                                      "ploidies": [len(w["steps"][0][0]), len(w["steps"][0][1]), w["tp"] + w["tq"]]})
+        ck.note("pederr_moving_parent_walks", len(walks))
     if trios:
         s = trios[len(trios) // 2]
         ck.sample({"kind": "trio-walk", "instance": {k: s[k] for k in ("K", "Gp", "Gq", "tp", "tq", "lp", "lq", "ep", "eq", "f")},
